@@ -133,6 +133,14 @@ class HelperDiffSim(Sim):
     def enabled_actions(self):
         return []
 
+    def _replay_boundary(self):
+        # the run is driven by virtual time and the plan in its config, not by chooser actions: a replay ends
+        # its fault phase where the search run did (inline decisions still come from the trace)
+        if self.fault_phase_over():
+            self.begin_settle()
+        else:
+            self._record_run()
+
     def fault_phase_over(self):
         return self.done or self.loop.time() > EPOCH + 2.0 + STEP * (len(self.cfg["script"]) + 8)
 
